@@ -8,7 +8,7 @@ THEOREMS = ['C10_cyclepoints', 'C10_argext', 'C10_midpoints', 'C10_shape', 'C10_
 RULE = ("generated signals of all families x option sets of C01 x both burst methods x both centrings; (a) amplitude: compute_features(a*x) against compute_features(x) for "
         "a = 2^k, k in [-40, 40] (exact in float64; a quarter of the cases on int16 / int32 / int64 signals with k in [1, 4]): every sample index, duration, symmetry, consistency, monotonicity, amplitude fraction, burst fraction and label equal, "
         "every voltage feature and band_amp multiplied by a exactly; (b) rate: compute_features(x, c*fs, c*f_range) against compute_features(x, fs, f_range) for c = 2^k, "
-        "k in [-3, 6] (fractional rates included; runs that the neurodsp filter validation refuses for its absolute-frequency limits are counted as kernel-refused), filter length in cycles: identical tables; distinct = distinct (signal, options, factor); non-trivial = >= 3 cycles and factor != 1")
+        "k in [-3, 6] and, for 40% of the rate cases, the one or two halvings that make c*fs fractional ( runs that the neurodsp filter validation refuses for its absolute-frequency limits are counted as kernel-refused), filter length in cycles: identical tables; distinct = distinct (signal, options, factor); non-trivial = >= 3 cycles and factor != 1")
 ASSUMPTIONS = ["exact commutation of float64 arithmetic with power-of-two factors is a runtime fact observed on the implementation (no overflow / subnormals in the tested range)",
                "homogeneity of the neurodsp kernels (filter linear, amp_by_time homogeneous, dual threshold scale free, dependence on fs and f only through ratios) is E5: assumed in the theorems, observed here"]
 BATCH = 50
@@ -34,6 +34,10 @@ def generate(ctx):
               if method == 'cycles' else {'burst_fraction_threshold': float(rng.choice([0.5, 1.0])), 'min_n_cycles': int(rng.choice([1, 3]))})
         kind = 'amp' if rng.random() < 0.6 else 'rate'
         k = int(rng.integers(-40, 41)) if kind == 'amp' else int(rng.integers(-3, 7))
+        if kind == 'rate' and rng.random() < 0.4:      # a FRACTIONAL rate: one or two halvings past the rate's last factor of two
+            v2 = 0
+            while int(s['fs']) % (2 ** (v2 + 1)) == 0: v2 += 1
+            k = -(v2 + 1 + int(rng.integers(2)))
         cases.append(dict(kind=kind, k=k, sig=proto.arr2hex(s['sig']), fs=s['fs'], f_range=list(s['f_range']),
                           n_cycles=(None if rng.random() < 0.5 else int(rng.choice([2, 3, 4]))),
                           boundary=(None if rng.random() < 0.5 else int(rng.choice([0, 5, 30]))),
@@ -66,7 +70,12 @@ def evaluate(ctx, cases):
             try:
                 res.append(_run(c, *args))
             except Exception as e:
-                res.append(type(e).__name__ + ': ' + str(e)[:60])
+                tb = e.__traceback__; files = []
+                while tb is not None:
+                    files.append(tb.tb_frame.f_code.co_filename); tb = tb.tb_next
+                last_own = max([i for i, f in enumerate(files) if '/bycycle/' in f] or [-1])
+                in_kernel = any('/neurodsp/' in f for f in files[last_own + 1:])
+                res.append(('transition band (kernel) ' if in_kernel else '') + type(e).__name__ + ': ' + str(e)[:60])
         info = {}
         if any(isinstance(r, str) and 'HistoryDependence' in r for r in res):
             out.append(Result(c, judge_ok=False, corr_ok=False, sig=key, nontrivial=True, info=dict(judge=[r for r in res if isinstance(r, str)][0]))); continue
